@@ -123,7 +123,7 @@ struct Init {
                [](bool th) { GenParams g; g.fill_rec_split = true; g.invalid_args = true; g.min_np = 2; g.max_np = th ? 8 : 6; g.max_data_ops = th ? 20 : 12; g.hints = true; g.nonblocking = true; g.fill = true; g.max_dimlen = 4; return g; },
                [](const Program &q, const RunResult &r) { if (q.cfg.sim.nprocs < 2 || !r.completed) return false; for (auto &op : q.ops) if (!op.skip && (op.kind == OP_PUT || op.kind == OP_GET) && op.coll) for (auto &a : op.acc) if (!a.active || a.invalid || a.exp_rc != NC_NOERR) return true; return false; });
         {   // C14 mode state machine and error precedence
-            Profile p; p.id = "C14"; p.level = "exploration"; p.exhaustive = false;
+            Profile p; p.id = "C14"; p.level = "exploration"; p.exhaustive = false; p.space_seeds = 5 * 9 * 9 * 9;   // seeds 1..3645 are exactly the depth-3 histories (5 starts x 9^3 steps); later seeds are the seeded walks
             p.technique = "deterministic simulation: exhaustive (depth 3) and seeded (depth 12) histories of mode-changing calls (incl. a failing enddef) with probe calls from every API family, against a reference mode automaton";
             p.rule = "histories over the mode-changing alphabet {enddef, redef, begin_indep, end_indep, close+reopen rw, close+reopen ro, abort+reopen, define two over-sized variables + enddef (must fail with NC_EVARSIZE and stay in define mode; CDF-1/2), ncmpi__enddef} from five starts {created, opened writable, opened read-only, a file without variables opened writable, the same opened read-only}; after every step one probe call from each API family (define, attribute, set_fill, collective and independent get, collective put, multi-variable put (_all) and get (independent), copy_att from a second file that stays open read-only in data mode, nonblocking post+cancel, wait_all, wait, cancel, sync, sync_numrecs, buffer attach/detach, inquiry) is issued by all ranks; seeds map to all 5 x 9^3 = 3645 histories of depth 3 (enumerated completely every run) and to seeded walks of depth 4..12; oracle: return code == reference automaton (documented precedence EPERM, EINDEFINE, ... for put/get and put_att; either applicable code where no precedence is documented), a rejected call changes no byte of the file (image diff around it), leaves no nonblocking request pending, and later calls still behave as the automaton says; non-trivial = at least one call was rejected and one accepted";
             p.gen = [](uint64_t seed, bool th) {
